@@ -18,6 +18,7 @@ package gnmi
 //@   modifies *
 //@   assert at call (*UpdateQueue).Add#0: [sync-filed-at-the-latest-initial-timestamp-once C20] arg1 != nil && arg1.Timestamp != nil && arg1.Timestamp.Timestamp == q.latest
 //@     && arg1.Repeat == 1 && isa(arg1.Value.(*fpb.Value_Sync))
+//@   ensures [client-wiring-untouched C12] c.subscribe == old(c.subscribe) && c.config == old(c.config) && c.polled == old(c.polled) && c.canceledCh == old(c.canceledCh)
 //@ func (*Client).setQueue
 //@   trusted
 //@   note body not verified (stores the queue under the client's lock)
@@ -48,7 +49,7 @@ package gnmi
 //@   props C20 C12
 //@   requires c != nil
 //@   modifies *
-//@   ensures [client-wiring-untouched C12] c.subscribe == old(c.subscribe) && c.config == old(c.config) && c.polled == old(c.polled)
+//@   ensures [client-wiring-untouched C12] c.subscribe == old(c.subscribe) && c.config == old(c.config) && c.polled == old(c.polled) && c.canceledCh == old(c.canceledCh)
 //@   ensures [at-most-one-event-taken C20] hits("call Queue.Next#0") <= old(hits("call Queue.Next#0")) + 1
 //@   ensures [an-event-or-an-error C20] res1 == nil ==> hits("call Queue.Next#0") == old(hits("call Queue.Next#0")) + 1
 //@   ensures [event-kinds C12] res1 == nil && res0 != nil ==> (isa(res0.(*fpb.Value)) && ArmSet(res0.(*fpb.Value)) && res0.(*fpb.Value).Timestamp != nil) || (isa(res0.(*gpb.SubscribeResponse)) && res0.(*gpb.SubscribeResponse) != nil)
@@ -57,11 +58,13 @@ package gnmi
 //@   requires c != nil && stream != nil && c.subscribe != nil && c.config != nil && c.polled != nil
 //@   modifies *
 //@   invariant 0: c != nil && stream != nil && c.subscribe != nil && c.config != nil && c.polled != nil
+//@     && c.subscribe == old(c.subscribe) && c.config == old(c.config) && c.polled == old(c.polled) && c.canceledCh == old(c.canceledCh)
 //@     && hits("call BidiStreamingServer.Send#0") - old(hits("call BidiStreamingServer.Send#0")) == hits("call (*Client).nextInQueue#0") - old(hits("call (*Client).nextInQueue#0"))
 //@   assert at call BidiStreamingServer.Send#0: [every-taken-event-is-sent-before-the-next-is-taken C20] arg0 != nil
 //@     && hits("call BidiStreamingServer.Send#0") - old(hits("call BidiStreamingServer.Send#0")) == hits("call (*Client).nextInQueue#0") - old(hits("call (*Client).nextInQueue#0"))
 //@   assert at call BidiStreamingServer.Send#0: [updates-carry-the-subscribed-target C20] c.subscribe.Prefix != nil && c.subscribe.Prefix.Target != "" && RespUpdate(arg0) != nil
 //@     ==> RespUpdate(arg0).Prefix != nil && RespUpdate(arg0).Prefix.Target == c.subscribe.Prefix.Target
+//@   ensures [client-wiring-untouched C12] c.subscribe == old(c.subscribe) && c.config == old(c.config) && c.polled == old(c.polled) && c.canceledCh == old(c.canceledCh)
 //@   ensures [stream-ends-with-the-queue-or-an-error C20] hits("call (*Client).nextInQueue#0") - old(hits("call (*Client).nextInQueue#0")) - (hits("call BidiStreamingServer.Send#0") - old(hits("call BidiStreamingServer.Send#0"))) <= 1
 
 // Close marks the client cancelled (nextInQueue then refuses to take further events) and wakes a sender that is holding
@@ -86,3 +89,12 @@ package gnmi
 //@   props C20 C12
 //@   requires c != nil
 //@   modifies c.requests, elems(c.requests)
+
+// The send loop runs processQueue until it reports an error; with disable_eof the connection is then held open until the
+// client is closed.
+//@ func (*Client).send
+//@   props C20 C12
+//@   requires c != nil && stream != nil && c.subscribe != nil && c.config != nil && c.polled != nil && c.canceledCh != nil
+//@   modifies *
+//@   invariant 0: c != nil && stream != nil && c.subscribe != nil && c.config != nil && c.polled != nil && c.canceledCh != nil
+//@   assert at call (*Client).processQueue#0: [sends-on-the-stream-it-was-given C20] arg0 == c && arg1 == stream
